@@ -61,12 +61,12 @@ theorem objSame_iff (o o' : Obj) : o.mapV blank = o'.mapV blank ↔ ObjSame o o'
   cases o; cases o'
   simp only [Obj.mapV, ObjSame, Obj.mk.injEq, blank_eq_iff]
   constructor
-  · rintro ⟨h1, h2, h3, h4, h5, h6, h7, h8, h9, h10, h11, h12, h13, h14, h15, h16, h17⟩
+  · rintro ⟨h1, h2, h3, h4, h5, h6, h7, h8, h9, h10, h11, h12, h13, h14, h15, h16, h17, h18⟩
     exact ⟨⟨h1.symm, h2.symm, h3.symm, h4.symm, h5.symm, h6.symm, h7.symm, h8.symm, h9.symm, h10.symm, h11.symm,
-      h12.symm, h13.symm, h14.symm, h15.symm, h16.symm, trivial⟩, h17⟩
-  · rintro ⟨⟨h1, h2, h3, h4, h5, h6, h7, h8, h9, h10, h11, h12, h13, h14, h15, h16, _⟩, h17⟩
+      h12.symm, h13.symm, h14.symm, h15.symm, h16.symm, trivial, h18.symm⟩, h17⟩
+  · rintro ⟨⟨h1, h2, h3, h4, h5, h6, h7, h8, h9, h10, h11, h12, h13, h14, h15, h16, _, h18⟩, h17⟩
     exact ⟨h1.symm, h2.symm, h3.symm, h4.symm, h5.symm, h6.symm, h7.symm, h8.symm, h9.symm, h10.symm, h11.symm,
-      h12.symm, h13.symm, h14.symm, h15.symm, h16.symm, h17⟩
+      h12.symm, h13.symm, h14.symm, h15.symm, h16.symm, h17, h18.symm⟩
 
 /-- two lists related element by element (same length) -/
 inductive Forall2 {α β} (R : α → β → Prop) : List α → List β → Prop
